@@ -11,6 +11,9 @@ pub mod rope_ax {
   /// to_string_from_display_ensures_for_str); `to_string()` on a `&&str` goes through the blanket `ToString for T: Display`
   pub broadcast axiom fn axiom_to_string_ref_str(s: &&str, res: String)
     ensures #[trigger] vstd::string::to_string_from_display_ensures::<&str>(s, res) ==> res@ == (*s)@;
+  /// std: `impl PartialEq<[U]> for [T]` compares lengths and elements; for u8 that is equality of the byte sequences
+  pub broadcast axiom fn axiom_u8_slice_eq(a: &[u8], b: &[u8])
+    ensures <[u8] as vstd::std_specs::cmp::PartialEqSpec<[u8]>>::obeys_eq_spec(), #[trigger] <[u8] as vstd::std_specs::cmp::PartialEqSpec<[u8]>>::eq_spec(a, b) == (a@ == b@);
   pub broadcast axiom fn axiom_str_len_bound(s: &str)
     ensures #[trigger] s.spec_bytes().len() <= usize::MAX;
 }
